@@ -1417,7 +1417,7 @@ package go9p
 //@   at call(os.OpenFile) ghost nopen := nopen + 1
 //@   at call((*SrvReq).RespondRopen) requires [C11 C17 oneopen] nopen == 1
 //@   at call(os.OpenFile) requires [confined] confined(arg0) && arg0 == old(upath(req))
-//@   at call(os.OpenFile) requires [C17 C14 flags] arg1 == ite(old(req.Tc.Mode) & 3 == 1, os.O_WRONLY, ite(old(req.Tc.Mode) & 3 == 2, os.O_RDWR, os.O_RDONLY)) + ite(old(req.Tc.Mode) & 16 != 0, os.O_TRUNC, 0)
+//@   at call(os.OpenFile) requires [C17 C14 C11 flags] arg1 == ite(old(req.Tc.Mode) & 3 == 1, os.O_WRONLY, ite(old(req.Tc.Mode) & 3 == 2, os.O_RDWR, os.O_RDONLY)) + ite(old(req.Tc.Mode) & 16 != 0, os.O_TRUNC, 0)
 
 //@ func (*Ufs).Remove(ufs, req)
 //@   property C18 C17 C06
